@@ -1269,6 +1269,10 @@ class mulgrid(object):
 
     def read_header(self, geo):
         """Reads grid header info from file geo"""
+        # (blank header fields are not assigned, so must not keep the values
+        # of a geometry read earlier into the same object)
+        self.gdcx, self.gdcy, self.cntype = None, None, None
+        self._block_order, self._block_order_int = None, None
         geo.read_value_line(self.__dict__, 'header')
         self.convention = self._convention
         self.atmosphere_type = self._atmosphere_type
